@@ -11,6 +11,9 @@ import (
 	"github.com/nats-io/nats.go"
 )
 
+// The size of the channel receiving the messages sent to a request inbox.
+const inboxChannelSize = 32
+
 var (
 	errInvalidResponse           = errors.New("invalid response")
 	errResourceResponse          = errors.New("response is a resource response")
@@ -363,7 +366,10 @@ func SendRequest(nc res.Conn, subject string, req interface{}, timeout time.Dura
 	inbox := nats.NewInbox()
 
 	// Subscribe to response inbox
-	ch := make(chan *nats.Msg, 1)
+	// A nats channel subscription drops messages when the channel is full. The
+	// channel must have room for a burst of pre-responses followed by the
+	// response, or the response may be lost and the request time out.
+	ch := make(chan *nats.Msg, inboxChannelSize)
 	sub, err := nc.ChanSubscribe(inbox, ch)
 	if err != nil {
 		r.Error = res.InternalError(err)
